@@ -653,6 +653,17 @@ func (s *c03Side) do(i int, op c03Op, withBans bool) (r *c03Res) {
 	return r
 }
 
+// c03TargetBanned: is the op's own target (the thing the probes count) banned in this set?
+func c03TargetBanned(tags, filts map[string]bool, u *c03Use) bool {
+	if u == nil || u.Control {
+		return false
+	}
+	if u.IsTag {
+		return tags[u.Target]
+	}
+	return filts[u.Target]
+}
+
 func inSet(m map[string]bool, ks []string) string {
 	for _, k := range ks {
 		if m[k] {
@@ -828,7 +839,7 @@ func (c03Checker) Run(tp *Tapes, opt RunOpt) *Outcome {
 				} else {
 					out.probe("banned_use_rejected")
 				}
-				if after != before {
+				if after != before && c03TargetBanned(m.tags, m.filts, src.Use) {
 					viol("banned_ran", key, fmt.Sprintf("op %d: the banned %q was invoked (probe counter moved by %d)", i, src.Use.Target, after-before), 0, after-before)
 				}
 				// a banned composition tag must not even fetch its file
@@ -851,7 +862,7 @@ func (c03Checker) Run(tp *Tapes, opt RunOpt) *Outcome {
 				} else {
 					out.probe("banned_lazy_rejected_at_exec")
 				}
-				if after != before {
+				if after != before && c03TargetBanned(m.tags, m.filts, src.Use) {
 					viol("banned_ran", key+" lazy", fmt.Sprintf("op %d: the banned %q was invoked (probe counter moved)", i, src.Use.Target), 0, after-before)
 				}
 			default:
